@@ -1,5 +1,5 @@
 import SspModel.Lemmas.Eject
-import SspModel.Lemmas.Bridge
+import SspModel.Lemmas.Bridge.Mrem
 /-!
 # C08 — the requested final black-hole mass fraction is met
 
